@@ -6,7 +6,7 @@ from vf import caps as C
 ID = "C15"
 LEVEL = "exploration"
 ENGINE = "E0 pure"
-TECHNIQUE = "Hypothesis round-trip over all 18 cap kinds + grammar-aware and byte-level mutation of valid cap strings, canonical re-serialisation oracle"
+TECHNIQUE = "Hypothesis round-trip over all 18 cap kinds + grammar-aware and byte-level mutation of valid cap strings, canonical re-serialisation oracle; thorough tier adds coverage-guided atheris/libFuzzer campaigns (seeded and empty corpus) with the same oracle inside the target"
 RULE = ("rt: cap objects of every kind from random fields (k/N/size up to 2^80) -> to_string -> from_string -> equal object, same class, identical string; "
         "mut: a valid cap string with 1-3 mutations (append/insert/delete/replace any byte 0-255, trailing newline/space/colon/junk, non-canonical last base32 "
         "character, wrong field lengths, leading zeros or '+' in numbers, case changes, ro./imm. prefixes, MDMF extension fields); raw: printable strings around "
@@ -21,8 +21,12 @@ BUDGET = {"quick": 600, "thorough": 3600}
 
 def plan(tier):
     n = 300 if tier == "quick" else 5000
-    return [{"kind": "hyp", "fam": f, "n": n} for f in ("rt", "mut", "mut", "mut", "raw", "mut", "mut", "rt")] + \
-           [{"kind": "hyp", "fam": "mut", "n": n} for _ in range(8)]
+    shards = [{"kind": "hyp", "fam": f, "n": n} for f in ("rt", "mut", "mut", "mut", "raw", "mut", "mut", "rt")] + \
+             [{"kind": "hyp", "fam": "mut", "n": n} for _ in range(8)]
+    if tier != "quick":
+        # coverage-guided campaigns (atheris/libFuzzer) with the same oracle in the target: two from a corpus of one valid cap per kind, two from an empty corpus
+        shards += [{"kind": "atheris", "runs": 400000, "seeded": i < 2, "seed": 11 + i} for i in range(4)]
+    return shards
 
 
 def mutation():
@@ -51,7 +55,41 @@ def strat(fam):
 
 
 def run_shard(spec, ctx):
+    if spec["kind"] == "atheris":
+        return run_atheris(spec, ctx)
     ctx.drive(strat(spec["fam"]), spec["n"], run_case)
+
+
+def run_atheris(spec, ctx):
+    """One libFuzzer campaign in a child process (atheris.Fuzz never returns); every saved crash artifact is re-judged here and becomes an ordinary replay case."""
+    import os, subprocess, sys, glob, re
+    from vf.core import mix
+    home = os.environ.get("VERIF_HOME", os.path.dirname(os.path.dirname(os.path.abspath(__file__))))
+    d = ctx.casedir()
+    art, corpus = os.path.join(d, "artifacts"), os.path.join(d, "corpus")
+    os.makedirs(corpus)
+    if spec["seeded"]:
+        for i, kind in enumerate(C.KINDS):
+            cap = C.make({"kind": kind, "a": i, "b": i + 1, "k": 3, "n": 10, "size": 1000 + i, "lit": b"literal".hex()})
+            open(os.path.join(corpus, "cap%02d" % i), "wb").write(cap.to_string())
+    env = dict(os.environ)
+    cmd = [sys.executable, os.path.join(home, "fuzz", "cap_parse.py"), art, corpus, "-runs=%d" % spec["runs"], "-seed=%d" % (mix(ctx.seed, spec["seed"]) % (2 ** 31 - 1) + 1)]
+    try:
+        p = subprocess.run(cmd, env=env, stdout=subprocess.PIPE, stderr=subprocess.STDOUT, timeout=1500)
+        out = p.stdout.decode("utf-8", "replace")
+    except subprocess.TimeoutExpired as e:
+        out = (e.stdout or b"").decode("utf-8", "replace")
+    if "No module named 'atheris'" in out:
+        ctx.cls("atheris-unavailable")
+        return
+    m = re.search(r"stat::number_of_executed_units:\s*(\d+)", out)
+    execs = int(m.group(1)) if m else 0
+    ctx.extra["atheris_execs"] = ctx.extra.get("atheris_execs", 0) + execs
+    ctx.evaluations += execs
+    ctx.cls("atheris-seeded-corpus" if spec["seeded"] else "atheris-empty-corpus")
+    crashes = sorted(glob.glob(os.path.join(art, "crash-*")))
+    cases = [{"fam": "rawhex", "hex": open(f, "rb").read().hex()} for f in crashes]
+    ctx.enumerate(cases, run_case)
 
 
 def apply_mut(s, m):
@@ -169,6 +207,9 @@ def run_case(case, ctx):
         orig = s
         for m in case["muts"]:
             s = apply_mut(s, tuple(m))
+    elif case["fam"] == "rawhex":
+        s = bytes.fromhex(case["hex"])
+        orig = None
     else:
         s = case["s"].encode("utf-8")
         orig = None
